@@ -224,6 +224,15 @@ where
 static CLEARED_TIMER_IDS: LazyLock<Mutex<HashSet<TimerId>>> =
     LazyLock::new(|| Mutex::new(HashSet::new()));
 
+/// Verification hook (read-only): the number of ids in the process-wide cleared-timer set.
+#[cfg(crux_verif)]
+pub fn verif_cleared_len() -> usize {
+    CLEARED_TIMER_IDS
+        .lock()
+        .unwrap_or_else(std::sync::PoisonError::into_inner)
+        .len()
+}
+
 #[cfg(test)]
 mod test {
     use super::*;
